@@ -170,9 +170,6 @@ func describeObligation(g XZCfg, run XZRun, s ref.XZStream) string {
 		if int64(b.USize) != want {
 			return fmt.Sprintf(": block %d carries %d bytes, want %d", i, b.USize, want)
 		}
-		if b.CSizeField >= 0 || b.USizeField >= 0 || b.SizeByte != 2 {
-			return fmt.Sprintf(": block %d header shape unexpected", i)
-		}
 	}
 	if s.Check != g.EffCheck() {
 		return fmt.Sprintf(": check id %d, configured %d", s.Check, g.EffCheck())
